@@ -23,7 +23,7 @@ theorem stream_live_step (hi : Inv s) (h : step s l = some s') :
     | grind [upd_apply, Pc.live_pending, Pc.live_spawned, Pc.live_waiting, Pc.live_busy, Pc.live_leaving]
     | (rename_i _ k1 e1 hq
        by_cases hkk : k = k1
-       · exact ⟨⟨k1, s.nextGen k1⟩, .pending, hkk.symm, by simp [upd_apply], rfl⟩
+       · exact ⟨⟨k1, s.nextGen k1⟩, .pending, hkk.symm, by simp, rfl⟩
        · grind [upd_apply, Pc.live_pending, Pc.live_spawned, Pc.live_waiting, Pc.live_busy, Pc.live_leaving])
 
 theorem lossless_step (hi : Inv s) (h : step s l = some s') :
